@@ -222,7 +222,7 @@ def opMPos (op : String) (raw : Impl.RawBoard) (rest : List String) : String :=
         | .ok sm => (match Impl.fmtSan sm with | .ok t => "ok " ++ fmtStr t | _ => "panic")
         | .err e => "err:" ++ fmtMoveValidateErr e
         | .trap _ => "panic"
-  | _, _ => "-"
+  | _, _ => "~"
 
 /-- A/B parts of the `mirror` operation computed by a generator of legal moves, outcome and check -/
 def mirrorSq (h : Bool) (s : Sq) : Sq := if h then s.flipFile else s.flipRank
